@@ -390,8 +390,15 @@ def u_getdescriptors(I):
     log = []
     RawMol = chem.MolCls
 
+    btype = {}          # id(molecule object) -> current type code of its (one, arbitrary) bond; copies and AddHs inherit it from their source
+
     def mk(tag, src=None):
-        return Obj(RawMol, {'mid': ctx.fresh('mol_' + tag, 'int'), 'tag': tag, 'from': src}, 'fresh')
+        o_ = Obj(RawMol, {'mid': ctx.fresh('mol_' + tag, 'int'), 'tag': tag, 'from': src}, 'fresh')
+        keepalive.append(o_)
+        if isinstance(src, Obj) and id(src) in btype:
+            btype[id(o_)] = btype[id(src)]
+        return o_
+    keepalive = []
     ch = W_.externs['rdkit.Chem'].members
 
     def MolFromSmiles(I_, a, k):
@@ -418,7 +425,24 @@ def u_getdescriptors(I):
     ch['rdmolops'].members['SanitizeFlags'] = flags
     W_.ctor_hooks['Mol'] = lambda I_, c, a, k: (log.append(('Mol-copy', a[0])), mk('copy', a[0]))[1]
     old_attr = W_.abstract['Mol']['attr']
-    W_.abstract['Mol'] = {'attr': lambda I_, m, n: Builtin('GetBonds', lambda I2, a, k: []) if n == 'GetBonds' else old_attr(I_, m, n)}
+    # the working molecule has one bond of arbitrary type: an UNSPECIFIED bond ('~', a weak bond to the surface) must become a ZERO-order bond,
+    # any other bond is left alone -- for BOTH input forms, and before aromatic perception and pattern matching see the molecule
+    bcode = I.fresh('bond_type', 'int')
+    WB = BuiltinClass('WorkBond')
+    setlog = []
+
+    def cur(m_):
+        return btype.setdefault(id(m_), bcode)          # a molecule seen for the first time (parsed text, the caller's object) has the input's bond
+
+    def wb_attr(I_, o_, n_):
+        m_ = o_.fields['of']
+        if n_ == 'GetBondType':
+            return Builtin('GetBondType', lambda I2, a, k: chem.bondtype(cur(m_)))
+        if n_ == 'SetBondType':
+            return Builtin('SetBondType', lambda I2, a, k: (setlog.append((m_, a[0].fields['code'])), btype.__setitem__(id(m_), a[0].fields['code']), log.append(('SetBondType', m_)))[2])
+        return NotImplementedVal
+    W_.abstract['WorkBond'] = {'attr': wb_attr}
+    W_.abstract['Mol'] = {'attr': lambda I_, m, n: Builtin('GetBonds', lambda I2, a, k: [Obj(WB, {'of': m}, 'param')]) if n == 'GetBonds' else old_attr(I_, m, n)}
     seen = {}
     W_.contracts[(SCHEME, '_aromatization_Benson')] = lambda I_, a, k: seen.setdefault('arom', a[0])
     W_.contracts[(SCHEME, 'GroupAdditivityScheme._AssignCenterPattern')] = lambda I_, a, k: seen.setdefault('center', a[1])
@@ -442,8 +466,12 @@ def u_getdescriptors(I):
         ps.append(('the hydrogen-free copy handed to the SMILES-based descriptors is defined and denotes the input molecule',
                    z3.BoolVal(isinstance(clean, Obj) and clean.fields.get('tag') in ('parsed', 'copy') and clean.fields.get('from') is arg)))
         ps.append(('result = groups overlaid with the correction descriptors', z3.BoolVal(isinstance(r, dict) and set(r) == {'C(C)(H)3', 'Cis'} and r['C(C)(H)3'] is g1 and r['Cis'] is d1)))
+        UNS, ZERO = BOND_CODES['UNSPECIFIED'], BOND_CODES['ZERO']
+        final = btype.get(id(work), bcode) if work is not None else bcode
+        ps.append(('the molecule that is matched has a ZERO-order bond where the input had an UNSPECIFIED one, and every other bond type as in the input (%s input)' % form,
+                   z3_of(final) == z3.If(bcode == UNS, z3.IntVal(ZERO), bcode)))
         if form == 'molecule':
-            ps.append(('the caller\'s molecule object is not modified (work on copies)', z3.BoolVal(not [x for x in log if x[0] in ('Kekulize', 'SanitizeMol') and x[1] is arg])))
+            ps.append(('the caller\'s molecule object is not modified (work on copies)', z3.BoolVal(not [x for x in log if x[0] in ('Kekulize', 'SanitizeMol', 'SetBondType') and x[1] is arg])))
         return ps
     check_outcome(I, out, raises={}, returns=posts)
     return {'inputs': {}}
